@@ -1,1 +1,153 @@
--- property theorems of C17 (not built yet)
+/-
+  C17 — observations load independent of row order, with aligned columns and units.
+
+  Theorems about `TaurexModel/Observation.lean` (`load`, `sortRowsDesc`, `edges4`, `widthConv`, `createBinner`,
+  `binModel`, `fromTaurex`) — the definitions `driver_c17` executes on `Float` — at the carrier `ℝ`.
+  `argsort` is an insertion sort by key; the order-dependent statements assume distinct wavelengths (the
+  property's quantifier), the unit statements positive wavelengths.  The non-vacuity examples use `nvA`, `nvB`
+  (`Proofs/C17NV.lean`): the rows (2,20,2,1), (4,40,4,2), (1,10,1,1/2) in two different orders.
+-/
+import Proofs.C17NV
+
+namespace Taurex.C17
+open Taurex.Observation Taurex.Binning List
+
+/-- **rows_integrity**: the stored rows are a permutation of the input rows — sorting moves whole rows, columns
+    never mix — and the public columns are read off those rows: wavenumber `10000/wl`, value, error of the *same*
+    row; with 4 columns the width is the row's own width converted at the row's own wavelength. -/
+theorem rows_integrity (fourCol : Bool) (rows : List (ORow ℝ)) :
+    (load fourCol rows).rows ~ rows ∧
+    (load fourCol rows).wavenumberGrid = (load fourCol rows).rows.map (fun r => 10000 / r.wl) ∧
+    (load fourCol rows).spectrum = (load fourCol rows).rows.map ORow.v ∧
+    (load fourCol rows).errorBar = (load fourCol rows).rows.map ORow.e :=
+  ⟨sortRowsDesc_perm rows, rfl, rfl, rfl⟩
+
+example : (load true nvA).rows ~ nvA := (rows_integrity true nvA).1
+
+/-- **widths_attached** (4 columns): `binWidths[i] = 10000·bw/wl²` of row `i` itself. -/
+theorem widths_attached (rows : List (ORow ℝ)) :
+    (load true rows).binWidths = (load true rows).rows.map (fun r => 10000 * r.bw / (r.wl * r.wl)) := by
+  unfold Obs.binWidths load
+  simp only [if_true]
+  rw [zipWith_map_same]
+  rfl
+
+example : (load true nvA).binWidths = (load true nvA).rows.map (fun r => 10000 * r.bw / (r.wl * r.wl)) :=
+  widths_attached nvA
+
+/-- **perm_invariant**: any two orders of the same rows (distinct wavelengths) load to the same object. -/
+theorem perm_invariant (fourCol : Bool) (rows₁ rows₂ : List (ORow ℝ)) (hp : rows₁ ~ rows₂)
+    (hd : (rows₁.map ORow.wl).Nodup) : load fourCol rows₁ = load fourCol rows₂ := by
+  unfold load
+  rw [sortRowsDesc_eq_of_perm hp hd]
+
+example : load true nvA = load true nvB := perm_invariant true nvA nvB nv_perm nv_nodup
+example : load false nvA = load false nvB := perm_invariant false nvA nvB nv_perm nv_nodup
+
+/-- **wn_ascending**: wavenumbers come out strictly ascending (distinct positive wavelengths). -/
+theorem wn_ascending (fourCol : Bool) (rows : List (ORow ℝ)) (hd : (rows.map ORow.wl).Nodup)
+    (hpos : ∀ r ∈ rows, 0 < r.wl) : (load fourCol rows).wavenumberGrid.Pairwise (· < ·) :=
+  wn_strict rows hd hpos
+
+example : (load true nvA).wavenumberGrid.Pairwise (· < ·) := wn_ascending true nvA nv_nodup nv_pos
+
+/-- **edges_consistent** (4 columns): the edges are, row by row in the stored (descending-wavelength) order,
+    `wl + bw/2` then `wl - bw/2`; `binEdges` is `10000/` that, so in ascending wavenumber
+    `10000/(wl+bw/2), 10000/(wl-bw/2)` per bin. -/
+theorem edges_consistent (rows : List (ORow ℝ)) :
+    (load true rows).edgesWl = (load true rows).rows.flatMap (fun r => [r.wl + r.bw / 2, r.wl - r.bw / 2]) ∧
+    (load true rows).binEdges =
+      (load true rows).rows.flatMap (fun r => [10000 / (r.wl + r.bw / 2), 10000 / (r.wl - r.bw / 2)]) := by
+  have h1 : (load true rows).edgesWl =
+      (load true rows).rows.flatMap (fun r => [r.wl + r.bw / 2, r.wl - r.bw / 2]) := by
+    unfold load
+    simp only [if_true]
+    unfold edges4
+    rw [reverse_flatMap_reverse]
+    rfl
+  refine ⟨h1, ?_⟩
+  unfold Obs.binEdges
+  rw [h1, List.map_flatMap]
+  rfl
+
+/-- **edges_consistent** (3 columns): widths are the absolute differences of consecutive edges, the edges are the
+    mid-points of the stored wavelengths with the two end edges extrapolated by half a spacing, and there is one
+    more edge than rows. -/
+theorem edges_consistent3 (rows : List (ORow ℝ)) (h : 1 ≤ rows.length) :
+    (load false rows).bw = (diffs (load false rows).edgesWl).map absv ∧
+    (load false rows).edgesWl = (computeBinEdges ((load false rows).rows.map ORow.wl)).1 ∧
+    (load false rows).edgesWl.length = rows.length + 1 ∧ (load false rows).bw.length = rows.length := by
+  have hl : (sortRowsDesc rows).length = rows.length := (sortRowsDesc_perm rows).length_eq
+  refine ⟨rfl, rfl, ?_, length_bw false rows h⟩
+  unfold load
+  simp only [Bool.false_eq_true, if_false]
+  rw [(length_computeBinEdges _ (by rw [List.length_map, hl]; exact h)).1, List.length_map, hl]
+
+/-- the mid-point rule itself: interior edges are `(a+b)/2` -/
+theorem midEdges_is_midpoint (a b : ℝ) (t : List ℝ) :
+    midEdges (a :: b :: t) = ((a + b) / 2) :: midEdges (b :: t) := by
+  rw [midEdges]; congr 1; ring
+
+example : (load false nvA).edgesWl = [5, 3, 3 / 2, 1 / 2] := by
+  have hs : sortRowsDesc nvA = [⟨4, 40, 4, 2⟩, ⟨2, 20, 2, 1⟩, ⟨1, 10, 1, 1 / 2⟩] := by
+    norm_num [sortRowsDesc, sortBy, insertBy, nvA]
+  unfold load
+  simp only [Bool.false_eq_true, if_false, hs]
+  norm_num [computeBinEdges, midEdges]
+
+/-- **binner_aligned**: the binner created from the observation holds exactly the observation's centres and
+    widths in the observation's order (its internal re-sort is the identity), so output index `i` of
+    `bin_model` is the bin of observation `i`. -/
+theorem binner_aligned (fourCol : Bool) (rows : List (ORow ℝ)) (hd : (rows.map ORow.wl).Nodup)
+    (hpos : ∀ r ∈ rows, 0 < r.wl) (hlen : 1 ≤ rows.length) (native : List (Row ℝ)) :
+    (load fourCol rows).createBinner.map TBin.c = (load fourCol rows).wavenumberGrid ∧
+    (load fourCol rows).createBinner.map TBin.w = (load fourCol rows).binWidths ∧
+    (load fourCol rows).binModel native =
+      (List.zipWith (fun c w => ({ c := c, w := w } : TBin ℝ)) (load fourCol rows).wavenumberGrid
+        (load fourCol rows).binWidths).map (fun t => fluxBinVal Row.s (nativeBins false native) t.lo t.hi) := by
+  set o := load fourCol rows with ho
+  have hlen' : o.wavenumberGrid.length = o.binWidths.length := by
+    have h1 : o.wavenumberGrid.length = rows.length := by
+      unfold Obs.wavenumberGrid
+      rw [List.length_map]
+      exact (sortRowsDesc_perm rows).length_eq
+    have h2 : o.binWidths.length = rows.length := by
+      unfold Obs.binWidths
+      have hb := length_bw fourCol rows hlen
+      rw [← ho] at hb
+      have : o.wnWidths = List.zipWith widthConv (o.rows.map ORow.wl) o.bw := rfl
+      rw [this, List.length_zipWith, List.length_map, hb]
+      have : o.rows.length = rows.length := (sortRowsDesc_perm rows).length_eq
+      omega
+    omega
+  have hz := zipWith_mk_map o.wavenumberGrid o.binWidths hlen'
+  have hsorted : (List.zipWith (fun c w => ({ c := c, w := w } : TBin ℝ)) o.wavenumberGrid o.binWidths).Pairwise
+      (fun t t' => t.c ≤ t'.c) := by
+    have := wn_ascending fourCol rows hd hpos
+    rw [← ho, ← hz.1, List.pairwise_map] at this
+    exact this.imp le_of_lt
+  have hid : o.createBinner =
+      List.zipWith (fun c w => ({ c := c, w := w } : TBin ℝ)) o.wavenumberGrid o.binWidths := by
+    unfold Obs.createBinner targetBins
+    exact sortBy_of_sorted TBin.c _ hsorted
+  refine ⟨by rw [hid]; exact hz.1, by rw [hid]; exact hz.2, ?_⟩
+  unfold Obs.binModel fluxBindown
+  rw [hid]
+
+example : (load true nvA).createBinner.map TBin.c = (load true nvA).wavenumberGrid :=
+  (binner_aligned true nvA nv_nodup nv_pos (by simp [nvA]) []).1
+
+/-- **taurex_roundtrip**: a TauREx-HDF5 spectrum `(wn, value, noise, wn width)` converted to array rows and read
+    back gives the stored wavenumber and the stored wavenumber width (positive wavenumbers). -/
+theorem taurex_roundtrip (r : ORow ℝ) (h : 0 < r.wl) :
+    10000 / (fromTaurex r).wl = r.wl ∧ widthConv (fromTaurex r).wl (fromTaurex r).bw = r.bw ∧
+    (fromTaurex r).v = r.v ∧ (fromTaurex r).e = r.e := by
+  have hne : r.wl ≠ 0 := ne_of_gt h
+  refine ⟨?_, ?_, rfl, rfl⟩
+  · unfold fromTaurex; simp only; field_simp
+  · unfold fromTaurex widthConv; simp only; field_simp
+
+example : widthConv (fromTaurex (⟨2500, 1, 1, 50⟩ : ORow ℝ)).wl (fromTaurex ⟨2500, 1, 1, 50⟩).bw = 50 :=
+  (taurex_roundtrip ⟨2500, 1, 1, 50⟩ (by norm_num)).2.1
+
+end Taurex.C17
